@@ -303,6 +303,10 @@ def map(
             )
             scalar_layer.append(True)
 
+    # An additional row records which pixels are covered by a cell at all: a NaN in the
+    # data must not be mistaken for a hole in the mesh when the maps are masked
+    to_binning.append(np.ones(len(indices_close_to_plane)))
+
     # Create a grid of pixel centers
     default_resolution = 256
     if resolution is None:
@@ -399,9 +403,12 @@ def map(
     row_operations = [
         op for op, nrows in zip(operations, rows_per_layer) for _ in range(nrows)
     ]
+    row_operations.append(operations[-1])  # the coverage row goes with the last layer
     binned = np.array(
         [getattr(np, op)(binned[row], axis=0) for row, op in enumerate(row_operations)]
     )
+    covered = binned[-1]
+    binned = binned[:-1]
 
     # Handle thick maps
     if thick:
@@ -412,8 +419,8 @@ def map(
                 layer["unit"] = layer["unit"] * dataz.unit
             row += nrows
 
-    # Mask NaN values
-    mask = np.isnan(binned[-1, ...])
+    # Mask the pixels that no cell covers
+    mask = np.isnan(covered)
     mask_vec = np.broadcast_to(mask.reshape(*mask.shape, 1), mask.shape + (3,))
 
     # Now we fill the arrays to be sent to the renderer, also constructing vectors
